@@ -305,6 +305,95 @@ def ws_all(b, w):
             if st["k"] == "assign" and place_target(b, st["pl"]) == w]
 
 
+RESETTABLE = (  # (type, methods that bring it back to its fresh state)
+    (BLOOM, ("reset", "clear")),
+    (CMS, ("reset", "clear")),
+    (TLFU, ("clear",)),
+    ("policy::SampledLFU", ("clear",)),
+)
+
+
+# fields that may keep their value across a reset, with the reason (checked where it can be)
+RESET_EXEMPT = {
+    (BLOOM, "elem_num"): "write-only statistic: incremented by add(), read by nothing (checked: no other reader)",
+    ("policy::SampledLFU", "metrics"): "the metrics handle installed by collect_metrics must survive clear() (R17.9 demands exactly that)",
+}
+
+
+def field_readers(facts, owner, fld, other=None):
+    out = set()
+    for b in facts.bodies:
+        if not user_code(b) or "::test" in b.spath or (other and other in b.spath):
+            continue
+        for bi, si, role, pl in b.place_uses():
+            if role in ("read", "ref") and has_field(pl, fld, owner):
+                out.add(strip_generics(b.raw["root"]))
+    return out
+
+
+def field_mutators(facts, owner, other=None):
+    """root function -> set of fields of `owner` that it writes or mutably borrows (directly or in a closure)."""
+    a = facts.adts.get(owner)
+    names = [f["name"] for v in (a["variants"] if a else []) for f in v["fields"]]
+    out = {}
+    for b in facts.bodies:
+        if not user_code(b) or "::test" in b.spath or (other and other in b.spath):
+            continue
+        for bi, si, role, pl in b.place_uses():
+            if role not in ("write", "mutref"):
+                continue
+            for fld in names:
+                if has_field(pl, fld, owner):
+                    out.setdefault(strip_generics(b.raw["root"]), set()).add(fld)
+            # `*self = Self::new(..)`: every field at once
+            if role == "write" and pl["p"] == ["*"] and 1 <= pl["l"] <= b.arg_count and \
+                    strip_generics(b.locals[pl["l"]]["ty"].replace("&mut ", "").split("<")[0]) == owner:
+                out.setdefault(strip_generics(b.raw["root"]), set()).update(names)
+    return out, names
+
+
+def check_reset_complete(rep, fl, rule, only=None):
+    """`clear()` / `reset()` give a fresh object: every field that some other method changes after construction
+    is also written (or handed out mutably) by them.  A field that remembers something across a reset - a memo, a
+    cursor, a second counter - makes the cleared estimator differ from a new one."""
+    facts = fl.facts
+    other = "r#async" if fl.name == "sync" else "::sync::"
+    for owner, resetters in RESETTABLE:
+        if only and owner not in only:
+            continue
+        muts, names = field_mutators(facts, owner, other)
+        if not names:
+            rep.missing(rule, fl, "type %s" % owner)
+            continue
+        ctor = lambda root: root.split("::")[-1] in ("new", "default", "with_hasher", "with_samples", "with_samples_and_hasher", "new_with_key_builder", "clone")
+        state = set()
+        for root, flds in muts.items():
+            last = root.split("::")[-1]
+            if ctor(root) or (root.startswith(owner + "::") and last in resetters):
+                continue
+            state |= flds
+        for (o2, f2), why in RESET_EXEMPT.items():
+            if o2 == owner and f2 in state:
+                if "write-only" in why:
+                    readers = {r for r in field_readers(facts, owner, f2, other) if f2 not in muts.get(r, set()) and not r.endswith("::fmt")}
+                    if readers:
+                        continue  # somebody reads it now: it is state like any other
+                state.discard(f2)
+        for m in resetters:
+            done = muts.get(owner + "::" + m, set())
+            # a resetter may delegate to another one of the same type (clear -> reset)
+            b = facts.body(owner + "::" + m, required=False)
+            if b is None:
+                rep.missing(rule, fl, "%s::%s" % (owner, m))
+                continue
+            for m2 in resetters:
+                if m2 != m and calls_to(facts.flat(b), owner + "::" + m2):
+                    done = done | muts.get(owner + "::" + m2, set())
+            left = sorted(state - done)
+            rep.check(not left, rule, fl, b, "resets all mutable state", "%s::%s writes every field that changes after construction (%s)" % (short(owner), m, ", ".join(sorted(state)) or "none"),
+                      "%s::%s leaves %s as it was: the %s state survives the reset, so the object does not behave like a fresh one" % (short(owner), m, ", ".join(left), ", ".join(left)))
+
+
 def check_contains_or_add(rep, fl, rule="R13.6"):
     facts = fl.facts
     # contains_or_add: contains -> false ; else add, true
@@ -321,6 +410,11 @@ def check_contains_or_add(rep, fl, rule="R13.6"):
             e = norm(cb.def_expr(rbi, rsi, True))
             added = rbi in cb.reachable(ad[0][0])
             ok = ok and e == ("const", 1 if added else 0, "bool")
+            if not added:
+                # "already there" is said only after the filter itself said so (no memo, no shortcut)
+                seen = ("atom", ("call", BLOOM + "::contains", (V("self"), h)))
+                sts = at.get((rbi, rsi), set())
+                ok = ok and bool(sts) and all(feval(seen, s_) is True for s_ in sts)
     rep.check(ok, rule, fl, cb, "contains_or_add", "adds exactly when absent and returns whether it added", "contains_or_add does not add-when-absent / report it")
 
 
@@ -372,6 +466,8 @@ def check_tinylfu(rep, fl):
     rep.check(ok, "R13.6", fl, inc, "increment", "first sighting goes to the doorkeeper, later ones to the sketch; try_reset runs on every path",
               "TinyLFU::increment no longer records repeated sightings in the sketch / ages on every recording")
     check_contains_or_add(rep, fl)
+    # "on a fresh or cleared estimator every key estimates zero": nothing the estimator accumulates survives clear / reset
+    check_reset_complete(rep, fl, "R13.3", only=(BLOOM, CMS, TLFU))
     # try_reset: w += 1; reset iff w >= samples
     tr = facts.body(TLFU + "::try_reset")
     at, entry = dataflow(tr)
@@ -554,6 +650,7 @@ def check_C14(rep, fl):
         rep.check(ok, "R14.4", fl, b, "zero all words", "%s zeroes every word of the bit array" % meth, "Bloom::%s does not zero every word" % meth)
     # the doorkeeper's one entry point: present -> false, absent -> add and true
     check_contains_or_add(rep, fl, rule="R14.2")
+    check_reset_complete(rep, fl, "R14.4", only=(BLOOM,))
     # ---- R14.5 sizing ---------------------------------------------------------------------------
     check_bloom_sizing(rep, fl, so if so is not None else None)
     # ---- R14.6 recorded only -------------------------------------------------------------------
